@@ -1424,7 +1424,48 @@ func UrlencodedBodyDecoder(body io.Reader, header http.Header, schema *openapi3.
 		}
 	}
 
+	// Fields that the schema does not declare are part of the value as well: they are what
+	// "additionalProperties" speaks about (false refuses them, a schema describes them).
+	for name, sent := range values {
+		if _, decoded := obj[name]; decoded || isDeclaredFormProperty(schema, name) {
+			continue
+		}
+		if additional := schema.Value.AdditionalProperties.Schema; additional != nil && additional.Value != nil {
+			if v, _, err := decodeProperty(dec, name, additional, encFn); err == nil && v != nil {
+				obj[name] = v
+				continue
+			}
+		}
+		if len(sent) == 1 {
+			obj[name] = sent[0]
+		} else {
+			list := make([]any, len(sent))
+			for i, s := range sent {
+				list[i] = s
+			}
+			obj[name] = list
+		}
+	}
+
 	return obj, nil
+}
+
+// isDeclaredFormProperty tells whether the schema or one of its allOf/anyOf/oneOf members declares the property.
+func isDeclaredFormProperty(schema *openapi3.SchemaRef, name string) bool {
+	if schema == nil || schema.Value == nil {
+		return false
+	}
+	if _, ok := schema.Value.Properties[name]; ok {
+		return true
+	}
+	for _, list := range []openapi3.SchemaRefs{schema.Value.AllOf, schema.Value.AnyOf, schema.Value.OneOf} {
+		for _, member := range list {
+			if isDeclaredFormProperty(member, name) {
+				return true
+			}
+		}
+	}
+	return false
 }
 
 // decodeSchemaConstructs tries to decode properties based on provided schemas.
